@@ -313,7 +313,10 @@ async fn run(scn: Value) -> Value {
     std::fs::write(&ctx.cfg_path, subst(scn["toml"].as_str().unwrap_or(""), &ctx.backends)).unwrap();
     let mut result = json!({});
     match pooler::start(&ctx.cfg_path, scn.get("real_signals").and_then(|x| x.as_bool()).unwrap_or(false)).await {
-        Ok(p) => ctx.pooler = Some(p),
+        Ok(p) => {
+            POOLER_STARTED.store(true, Ordering::SeqCst);
+            ctx.pooler = Some(p)
+        }
         Err(e) => {
             result["start_error"] = json!(e);
             let _ = std::fs::remove_dir_all(&dir);
@@ -705,17 +708,39 @@ async fn run(scn: Value) -> Value {
     result
 }
 
+/// C11 (additive): did the in-process pooler start, and what did the harness's OWN main thread panic with, if it did.
+/// pgcat's client tasks run in spawned tokio tasks: their panics never reach the main thread; a panic of the main thread is the
+/// harness (a socket it could not get, ...) or start-up code — it is reported as `harness_panic`, never as a dead pooler.
+static POOLER_STARTED: std::sync::atomic::AtomicBool = std::sync::atomic::AtomicBool::new(false);
+static MAIN_PANIC: parking_lot::Mutex<Option<String>> = parking_lot::Mutex::new(None);
+
 fn main() {
-    if std::env::var("VH_PANIC_TRACE").is_err() {
-        quiet_panics();
+    let trace = std::env::var("VH_PANIC_TRACE").is_ok();
+    let default_hook = std::panic::take_hook();
+    std::panic::set_hook(Box::new(move |info| {
+        if std::thread::current().name() == Some("main") {
+            *MAIN_PANIC.lock() = Some(format!("{}", info));
+        }
+        if trace {
+            default_hook(info);
+        }
+    }));
+    let r = std::panic::catch_unwind(|| {
+        let mut inp = String::new();
+        std::io::stdin().read_to_string(&mut inp).unwrap();
+        let scn: Value = serde_json::from_str(&inp).expect("scenario json");
+        let workers = scn.get("workers").and_then(|x| x.as_u64()).unwrap_or(2) as usize;
+        let rt = tokio::runtime::Builder::new_multi_thread().worker_threads(workers).enable_all().build().unwrap();
+        rt.block_on(run(scn))
+    });
+    match r {
+        Ok(out) => println!("{}", out),
+        Err(_) => {
+            let msg = MAIN_PANIC.lock().clone().unwrap_or_else(|| "panic on the harness main thread".to_string());
+            println!("{}", json!({"harness_panic": msg, "pooler_started": POOLER_STARTED.load(Ordering::SeqCst)}));
+            std::process::exit(3);
+        }
     }
-    let mut inp = String::new();
-    std::io::stdin().read_to_string(&mut inp).unwrap();
-    let scn: Value = serde_json::from_str(&inp).expect("scenario json");
-    let workers = scn.get("workers").and_then(|x| x.as_u64()).unwrap_or(2) as usize;
-    let rt = tokio::runtime::Builder::new_multi_thread().worker_threads(workers).enable_all().build().unwrap();
-    let out = rt.block_on(run(scn));
-    println!("{}", out);
     // do not wait for lingering tasks (hung backends, blocked clients)
     std::process::exit(0);
 }
